@@ -26,8 +26,9 @@ let next_kfdc_inst () =
   let cons = next_seqs () in let cov = next_q () in let o = next_opts () in
   let sl = next_seqs () in let fx = next_seqs () in
   let given = if next_bool () then Some (next_list next_q) else None in
+  let sf = next_bool () in
   { c_graph = g; c_k = k; c_flow = flow; c_ignore = ign; c_int = isint; c_cons = cons; c_cov = cov; c_opts = o;
-    c_safe_lists = sl; c_fix = fx; c_given = given }
+    c_safe_lists = sl; c_fix = fx; c_given = given; c_scale_free = sf }
 let () = register "walks" (fun () -> print_milp (encode_walks (next_walk_inst ())))
 let () = register "kpcc" (fun () -> print_milp (encode_kpcc (next_kpcc_inst ())))
 let () = register "kfdc" (fun () -> print_milp (encode_kfdc (next_kfdc_inst ())))
